@@ -7,6 +7,7 @@ C05 — Type 2 charstring interpretation conforms to the specification (TN5177).
 import SfntV.Proofs.T2
 import SfntV.Proofs.T2Progress
 import SfntV.Proofs.T2Loop
+import SfntV.Proofs.T2WF
 
 namespace SfntV.Props.C05
 open SfntV SfntV.T2 SfntV.Spec.T2
@@ -228,16 +229,40 @@ theorem C05_clamp_deviates :
     T2.interp goQuirks env0 [28, 126, 244, 22, 14] = .ok ⟨[.moveTo (32000 * 65536) 0], [], [], 0⟩ := by
   decide
 
-/-- Whole-program progress (not yet proved; `WF` is the independent grammar of Spec/T2.lean). -/
-def C05_progress_full : Prop :=
-  ∀ (env : Env) (p : Program), WF p → ∃ g, Spec.T2.interp env (encode p) = .ok g
+/-- Whole-program progress: every well-formed program of the charstring language without subroutine
+calls — literal operands (all encodings), the optional leading width on the first stack-clearing
+operator, hstem/vstem/hstemhm/vstemhm, hintmask/cntrmask with implicit vstem operands and ⌈nStems/8⌉
+mask bytes, the three movetos, all path operators incl. the four flex forms, the value-independent
+arithmetic/conditional operators (abs add sub neg mul eq and or not drop dup exch ifelse random),
+endchar — is executed by the specification interpreter without error and yields a glyph.  `WF` is the
+independent stack-effect grammar `Spec.T2.wfCheck`. -/
+theorem C05_progress (env : Env) (p : Program) (h : WF p) :
+    ∃ g, Spec.T2.interp env (encode p) = .ok g := by
+  obtain ⟨g, hg, _⟩ := wf_progress env p h
+  exact ⟨g, hg⟩
 
-/-- On well-formed programs the Go decoder's leniencies are invisible (not yet proved). -/
-def C05_quirks_irrelevant_full : Prop :=
-  ∀ (env : Env) (p : Program), WF p → T2.interp goQuirks env (encode p) = Spec.T2.interp env (encode p)
+/-- On well-formed programs that avoid the known deviations (`Agrees`: no `mul` — C05-mul; no `add`,
+`sub`, `flex1`, `hflex1`, whose results/derived deltas are not statically within ±32000 — C05-clamp)
+the Go decoder's quirks are invisible: its model returns exactly what the specification returns. -/
+theorem C05_quirks_irrelevant (env : Env) (p : Program) (h : WF p) (ha : Agrees p) :
+    T2.interp goQuirks env (encode p) = Spec.T2.interp env (encode p) := by
+  obtain ⟨g, hg, hq⟩ := wf_progress env p h
+  rw [hq ha]
+  exact hg.symm
 
-/-- A well-formed sample program: width 50, hstem, rmoveto, rlineto, hvcurveto with trailing operand, endchar. -/
+/-- A well-formed sample program: width 50, hstem, implicit vstem + hintmask, rmoveto, rlineto with an
+arithmetic operand, hvcurveto with trailing operand, flex1, endchar. -/
+def exProg : Program :=
+  [.int 50, .int 10, .int 20, .op .hstemhm, .int 5, .int 6, .mask false [192], .int 1, .int 2, .op .rmoveto,
+   .int 3, .int 4, .int 1, .op .add, .op .rlineto, .int 1, .int 2, .int 3, .int 4, .int 5, .op .hvcurveto,
+   .int 1, .int 2, .int 3, .int 4, .int 5, .int 6, .int 7, .int 8, .int 9, .int 10, .int 11, .op .flex1,
+   .op .endchar]
+
+example : WF exProg := by decide
+example : ¬ Agrees exProg := by decide
 example : WF [.int 50, .int 10, .int 20, .op .hstem, .int 1, .int 2, .op .rmoveto, .int 3, .int 4, .op .rlineto,
+    .int 1, .int 2, .int 3, .int 4, .int 5, .op .hvcurveto, .op .endchar] ∧
+  Agrees [.int 50, .int 10, .int 20, .op .hstem, .int 1, .int 2, .op .rmoveto, .int 3, .int 4, .op .rlineto,
     .int 1, .int 2, .int 3, .int 4, .int 5, .op .hvcurveto, .op .endchar] := by decide
 
 end SfntV.Props.C05
